@@ -8,7 +8,7 @@
 From Coq Require Import ZArith List Bool Lia Arith.
 From Bluge Require Import Base.Res Gen.ParamsSearch Search.Numeric Search.Postings Search.Searchers Search.Semantics
   Search.SearchersProofsBase Search.SearchersProofsConj Search.SearchersProofsDisj Search.SearchersProofsHeap
-  Search.SearchersProofsLeaf Search.SearchersProofsSnap Search.SearchersProofsLeafWeak Search.SearchersProofsWeak
+  Search.SearchersProofsLeaf Search.SearchersProofsSnap Search.SearchersProofsLeafWeak Search.SearchersProofsAll Search.SearchersProofsWeak
   Search.SearchersProofsExact Search.SearchersProofsTree.
 From Bluge Require Search.SearchersProofsBoolAdv.
 Module B := SearchersProofsBoolAdv.
@@ -168,6 +168,7 @@ Fixpoint qok (d : nat) (q : query) : Prop :=
   match q with
   | QTerm _ _ => True
   | QNone => True
+  | QAll => True
   | QBool m s n ms =>
       match d with
       | O => False
@@ -232,10 +233,18 @@ Section Compile.
 
   Lemma term_new : forall W d f t, pNew (Cl sn W d) (term_searcher sn copts_plain f t) (qS sn (QTerm f t)).
   Proof.
-    intros W d f t. apply Cl_new_lift. left. unfold term_searcher. eexists _, _, _. split; [reflexivity|].
+    intros W d f t. apply Cl_new_lift. left. left. unfold term_searcher. eexists _, _, _. split; [reflexivity|].
     split; [apply mk_pit_inv; exact Hwf|].
     split; [apply iters_ok_snapshot; exact Hwf|]. split; [intros k q H; exact H|].
     intros x Hx. change (term_S sn f t x = true). apply term_S_visible; [exact Hwf|exact Hx].
+  Qed.
+
+  Lemma all_new : forall W d, pNew (Cl sn W d) (SAll (mk_ait sn)) (qS sn QAll).
+  Proof.
+    intros W d. apply Cl_new_lift. left. right. exists (mk_ait sn). split; [reflexivity|].
+    apply (AInv_ext _ _ _ (all_S sn)); [|apply mk_ait_inv; exact Hwf].
+    intros x. unfold all_S, qS. induction (live_docs sn) as [| p l IH]; [reflexivity|].
+    cbn [existsb sem]. rewrite andb_true_r, IH. reflexivity.
   Qed.
 
   Lemma none_new : forall W d q, (forall dd, sem q dd = false) -> pNew (Cl sn W d) SNone (qS sn q).
@@ -326,9 +335,11 @@ Section Compile.
     induction d as [| d IH]; intros q Hq.
     - destruct q; simpl in Hq; try contradiction.
       + eexists. split; [reflexivity|]. intros W _. apply term_new.
+      + eexists. split; [reflexivity|]. intros W _. apply all_new.
       + eexists. split; [reflexivity|]. intros W _. apply none_new. intros dd. reflexivity.
     - destruct q as [f t| | |m s n ms| | |]; simpl in Hq; try contradiction.
       + eexists. split; [reflexivity|]. intros W _. apply term_new.
+      + eexists. split; [reflexivity|]. intros W _. apply all_new.
       + eexists. split; [reflexivity|]. intros W _. apply none_new. intros dd. reflexivity.
       + destruct Hq as [Hm [Hs [Hn [Hms Hne]]]].
         destruct (clist_ok d n) as [cn [En HFn]]; [eapply Forall_impl; [|exact Hn]; intros a Ha; apply IH; exact Ha|].
